@@ -101,7 +101,8 @@ def parse_reports(paths_or_text):
             m = UBSAN_RE.search(ln)
             if m:
                 loc = ln.split(": runtime error")[0].strip()
-                out.append({"tool": "ubsan", "kind": m.group(1)[:80], "where": os.path.basename(loc)})
+                kind_ = re.sub(r"0x[0-9a-fA-F]+", "0x..", m.group(1))          # no run-specific addresses in mechanism tags
+                out.append({"tool": "ubsan", "kind": kind_[:80], "where": os.path.basename(loc)})
     return out
 
 
